@@ -1,5 +1,5 @@
 """C19 — the exposed hash primitives: FNV half decided from the table, forms as folds; rolling step shape."""
-from ..rules import data, fold, rolling, vis
+from ..rules import data, fold, rolling, vis, summary
 
 EXPL = ("Decides: (1) SA-DATA exhaustively over all 64x64 entries of FNV_TABLE as evaluated by rustc: entry = low 6 bits of "
         "((state*0x01000193) xor c); initial value = 0x28021967 mod 64; update_by_byte's only store to the state is "
@@ -21,5 +21,6 @@ def run(ctx):
         ctx.guard("C19", "fnv-forms", lambda: fold.primitive_forms(ctx, prog, "PartialFNVHash"))
         ctx.guard("C19", "roll-forms", lambda: fold.primitive_forms(ctx, prog, "RollingHash"))
         ctx.guard("C19", "roll-step", lambda: rolling.step_shape(ctx, prog))
+        ctx.guard("C19", "summaries", lambda: summary.check(ctx, prog, 'generate::hashes::', floor=6))
         ctx.guard("C19", "traits", lambda: vis.trait_census(ctx, prog, scope='hashes::'))
     return ctx.finish(EXPL, ["u32 wrapping_* methods have their documented meaning", "rustc's const evaluation of FNV_TABLE"])
